@@ -2,6 +2,7 @@ import Driver.Util
 import ImmuModel.Tx.Concrete
 import ImmuModel.Tx.ConcreteD
 import ImmuModel.Tx.Scan
+import ImmuModel.Tx.ValueCache
 namespace Driver.C09
 open ImmuModel ImmuModel.Tx ImmuModel.Tx.Rec
 
@@ -83,6 +84,21 @@ def step : List String → String
       match readValue shaHs ⟨emb == "1", maxIO, maxVal⟩ logs txLog ⟨[], [], vLen, vOff, hVal⟩ with
       | .ok v => "ok " ++ Bytes.toHexTok v
       | .error e => errTokV e
+    | _, _, _, _, _, _, _ => "bad-op"
+  -- value read through the value-log cache: <cached> = off (no cache) | none (nothing cached at vOff) | hex (the cached bytes)
+  | ["rvc", emb, maxIO, maxVal, vLen, vOff, hVal, logs, txLog, cached] =>
+    match maxIO.toNat?, maxVal.toNat?, vLen.toNat?, vOff.toNat?, dg? hVal, parseCsv logs, Bytes.ofHex txLog with
+    | some maxIO, some maxVal, some vLen, some vOff, some hVal, some logs, some txLog =>
+      let cache? : Option (Option VCache) :=
+        if cached == "off" then some none
+        else if cached == "none" then some (some [])
+        else (Bytes.ofHex cached).map (fun b => some [(vOff, b)])
+      match cache? with
+      | some cache =>
+        match (readValueC shaHs ⟨emb == "1", maxIO, maxVal⟩ logs txLog cache ⟨[], [], vLen, vOff, hVal⟩).2 with
+        | .ok v => "ok " ++ Bytes.toHexTok v
+        | .error e => errTokV e
+      | none => "bad-op"
     | _, _, _, _, _, _, _ => "bad-op"
   | _ => "bad-op"
 
